@@ -356,6 +356,14 @@ def run_body(body: List[ast.stmt], c: Ctx, depth: int) -> bool:
             if run_body(st.body if v3 else st.orelse, c, depth):
                 return True
             continue
+        if isinstance(st, ast.With):
+            # np.errstate(...) and similar managers do not change the mathematical value of the body
+            if all((dotted(i.context_expr.func) or "").endswith("errstate") for i in st.items if isinstance(i.context_expr, ast.Call)) \
+                    and all(isinstance(i.context_expr, ast.Call) for i in st.items):
+                if run_body(st.body, c, depth):
+                    return True
+                continue
+            raise Untranslatable("with-statement")
         if isinstance(st, ast.Raise):
             raise Untranslatable("raise")
         if isinstance(st, (ast.Pass, ast.Assert)):
